@@ -66,10 +66,13 @@ func (e *EncryptionKeys) String() string {
 // https://tools.ietf.org/html/rfc4279#section-2
 func PSKPreMasterSecret(psk []byte) []byte {
 	pskLen := uint16(len(psk)) //nolint:gosec // G115
+	// Offsets are computed as int: in uint16 arithmetic 2+pskLen+2 wraps for
+	// keys of 65532 bytes and more.
+	zeros := int(pskLen)
 
-	out := append(make([]byte, 2+pskLen+2), psk...)
+	out := append(make([]byte, 2+zeros+2), psk...)
 	binary.BigEndian.PutUint16(out, pskLen)
-	binary.BigEndian.PutUint16(out[2+pskLen:], pskLen)
+	binary.BigEndian.PutUint16(out[2+zeros:], pskLen)
 
 	return out
 }
